@@ -14,6 +14,27 @@ thread_local! {
     static IN_GUARD: std::cell::Cell<u32> = std::cell::Cell::new(0);
 }
 
+/// Violation journal: every violation is appended (and flushed) to this file the moment it is found, so
+/// that a later abort of the process (allocation failure, stack overflow) cannot lose it.
+pub static JOURNAL: std::sync::Mutex<Option<std::fs::File>> = std::sync::Mutex::new(None);
+
+pub fn open_journal(path: &str) {
+    if let Ok(f) = std::fs::File::create(path) {
+        *JOURNAL.lock().unwrap() = Some(f);
+    }
+}
+
+fn journal(sig: &str, case: &Case, detail: &str) {
+    use std::io::Write;
+    if let Ok(mut g) = JOURNAL.lock() {
+        if let Some(f) = g.as_mut() {
+            let line = serde_json::json!({"sig": sig, "case": case.toks, "detail": detail}).to_string();
+            let _ = writeln!(f, "{}", line);
+            let _ = f.flush();
+        }
+    }
+}
+
 /// mark code that runs crate calls under catch_unwind outside of Ctx::guard (C19 programs)
 pub fn enter_guard() { IN_GUARD.with(|g| g.set(g.get() + 1)); }
 pub fn leave_guard() { IN_GUARD.with(|g| g.set(g.get().saturating_sub(1))); }
@@ -224,6 +245,7 @@ impl Ctx {
         *self.violation_counts.entry(sig.clone()).or_insert(0) += 1;
         let kept_for_sig = self.violations.iter().filter(|v| v.sig == sig).count();
         if kept_for_sig < 3 && self.violations.len() < self.max_violations_kept {
+            journal(&sig, case, &abbreviate(&detail, 1500));
             self.violations.push(Violation { sig, case: case.clone(), detail: abbreviate(&detail, 1500) });
         }
     }
